@@ -66,3 +66,13 @@ Example C05_tree_ok_nonvacuous :
               {| n_kind := KEndBlock; n_parent := Some 1%nat; n_children := []; n_thr := false |};
               {| n_kind := KMark; n_parent := Some 0%nat; n_children := []; n_thr := false |} ] = true.
 Proof. vm_compute. reflexivity. Qed.
+
+(* REFUTED (known finding): the after-block clause fails inside a re-arming Alarm body. The model's own run of
+     Alarm: X > 2 / Block: B1 [Wait: 0 s; Wait: 2 s; End blocks] / Watch: X > 2
+   reaches a state in which the Watch after the block has started while the block, started again by the Alarm's second
+   invocation, has not ended: the Watch's interrupt of the first invocation survived the re-arm. *)
+Example C05_after_block_refuted :
+  let p := [{| n_kind := KProgram; n_parent := None; n_children := [1%nat]; n_thr := false |}; {| n_kind := KAlarm; n_parent := (Some 0%nat); n_children := [2%nat; 6%nat]; n_thr := false |}; {| n_kind := KBlock; n_parent := (Some 1%nat); n_children := [3%nat; 4%nat; 5%nat]; n_thr := false |}; {| n_kind := (KWait 0); n_parent := (Some 2%nat); n_children := []; n_thr := false |}; {| n_kind := (KWait 20); n_parent := (Some 2%nat); n_children := []; n_thr := false |}; {| n_kind := KEndBlocks; n_parent := (Some 2%nat); n_children := []; n_thr := false |}; {| n_kind := KWatch; n_parent := (Some 1%nat); n_children := [7%nat; 8%nat; 9%nat]; n_thr := false |}; {| n_kind := (KBlank true); n_parent := (Some 6%nat); n_children := []; n_thr := false |}; {| n_kind := (KBlank true); n_parent := (Some 6%nat); n_children := []; n_thr := false |}; {| n_kind := (KBlank true); n_parent := (Some 6%nat); n_children := []; n_thr := false |}] in
+  let ts := [{| t_complete := []; t_dt := 1; t_thr_wait := []; t_cond_true := [1%nat]; t_cond_err := [] |}; {| t_complete := []; t_dt := 1; t_thr_wait := []; t_cond_true := [1%nat]; t_cond_err := [] |}; {| t_complete := []; t_dt := 1; t_thr_wait := []; t_cond_true := [1%nat]; t_cond_err := [] |}; {| t_complete := []; t_dt := 2; t_thr_wait := []; t_cond_true := [1%nat]; t_cond_err := [] |}; {| t_complete := []; t_dt := 1; t_thr_wait := []; t_cond_true := [1%nat]; t_cond_err := [] |}; {| t_complete := []; t_dt := 2; t_thr_wait := []; t_cond_true := []; t_cond_err := [] |}; {| t_complete := []; t_dt := 1; t_thr_wait := []; t_cond_true := [1%nat]; t_cond_err := [] |}; {| t_complete := []; t_dt := 1; t_thr_wait := []; t_cond_true := [1%nat]; t_cond_err := [] |}; {| t_complete := []; t_dt := 1; t_thr_wait := []; t_cond_true := [6%nat]; t_cond_err := [] |}; {| t_complete := []; t_dt := 1; t_thr_wait := []; t_cond_true := [1%nat]; t_cond_err := [] |}; {| t_complete := []; t_dt := 2; t_thr_wait := []; t_cond_true := [1%nat]; t_cond_err := [] |}; {| t_complete := []; t_dt := 1; t_thr_wait := []; t_cond_true := [6%nat]; t_cond_err := [] |}; {| t_complete := []; t_dt := 1; t_thr_wait := []; t_cond_true := [6%nat]; t_cond_err := [] |}; {| t_complete := []; t_dt := 1; t_thr_wait := []; t_cond_true := [1%nat]; t_cond_err := [] |}; {| t_complete := []; t_dt := 1; t_thr_wait := []; t_cond_true := [1%nat; 6%nat]; t_cond_err := [] |}; {| t_complete := []; t_dt := 1; t_thr_wait := []; t_cond_true := [1%nat]; t_cond_err := [] |}; {| t_complete := []; t_dt := 1; t_thr_wait := []; t_cond_true := []; t_cond_err := [] |}; {| t_complete := []; t_dt := 1; t_thr_wait := []; t_cond_true := []; t_cond_err := [] |}; {| t_complete := []; t_dt := 1; t_thr_wait := []; t_cond_true := [1%nat; 6%nat]; t_cond_err := [] |}; {| t_complete := []; t_dt := 1; t_thr_wait := []; t_cond_true := []; t_cond_err := [] |}] in
+  existsb (fun v => negb (after_block_ok p v)) (InterpRun.run (p, ts)) = true.
+Proof. vm_compute. reflexivity. Qed.
